@@ -11,11 +11,15 @@ def call_spans(source: str, fname: str = "snapshot"):
     """[(start_offset, end_offset)] of the text between the parentheses of every `fname(...)` call that is
     not nested inside another such call (offsets into `source`), found by tokenising - independent of
     asttokens / executing which the tool uses."""
-    toks = list(tokenize.generate_tokens(io.StringIO(source).readline))
-    lines = source.splitlines(keepends=True)
-    starts = [0]
-    for l in lines:
-        starts.append(starts[-1] + len(l))
+    import re
+    bom = 1 if source.startswith("\ufeff") else 0
+    body = source[bom:]
+    norm = body.replace("\r\n", "\n").replace("\r", "\n")
+    toks = list(tokenize.generate_tokens(io.StringIO(norm).readline))
+    # line starts in the ORIGINAL text (line ends: \r\n, \r, \n - as the Python tokenizer sees them)
+    starts = [bom]
+    for m in re.finditer(r"\r\n|\r|\n", body):
+        starts.append(bom + m.end())
 
     def off(pos):
         return starts[pos[0] - 1] + pos[1]
